@@ -513,11 +513,65 @@ func (g *G) recordNow(t *tenant, admin string) {
 	t.pending = append(t.pending, req)
 }
 
+// chainsChange: governance changes the list of supported chains in mid-history; records are then accepted or refused by the new list
+func (g *G) chainsChange() {
+	r := g.r
+	g.chains = rng.Pick(r, [][]string{{"1"}, {"137"}, {"1", "137"}, {"1", "eth-2"}, {"1", "Base"}, {"137", "eth-2"}})
+	var cs []string
+	for _, c := range g.chains {
+		cs = append(cs, e(c))
+	}
+	g.emit("setsparams %s %s", rng.Pick(r, []string{"1", "0.5", "0", "0.333333333333333333"}), strings.Join(cs, ","))
+	// a record on each side of the change
+	t := g.pickTenant()
+	for _, c := range []string{"1", "137", "eth-2", "Base"} {
+		req := fmt.Sprintf("g%d", t.nreq)
+		t.nreq++
+		g.emit("record %s %d %s 2 %s %s %s %s", t.admins[0], t.id, e(req), e(t.denom), e(c), e(contracts[0]), e(tokens[1]))
+		for _, s := range g.chains {
+			if s == c {
+				t.pending = append(t.pending, req)
+				g.ext = append(g.ext, extNft{c, contracts[0], tokens[1]})
+			}
+		}
+	}
+}
+
+// emptyIdScript: the empty string is a request id like any other - recorded, paid, and then free to be recorded and cancelled again
+func (g *G) emptyIdScript(t *tenant) {
+	if t.method != "native" {
+		return
+	}
+	admin := t.admins[0]
+	g.emit("setperiod %s %d 1", admin, t.id)
+	g.emit("setowner %s %s %s", e(contracts[0]), e(tokens[0]), accs[6])
+	g.emit("fund %s 1000 %s", admin, e(t.denom))
+	g.emit("deposit %s %d 500 %s", admin, t.id, e(t.denom))
+	id := rng.Pick(g.r, []string{"", "", "again"})
+	g.emit("record %s %d %s 4 %s %s %s %s", admin, t.id, e(id), e(t.denom), e(world.ThisChain), e(contracts[0]), e(tokens[0]))
+	g.block()
+	g.block()
+	g.emit("record %s %d %s 6 %s %s %s %s", admin, t.id, e(id), e(t.denom), e(world.ThisChain), e(contracts[0]), e(tokens[0]))
+	if g.r.P(1, 2) {
+		g.emit("cancel %s %d %s", admin, t.id, e(id))
+	} else {
+		t.pending = append(t.pending, id)
+	}
+}
+
 func (g *G) adminOp() {
 	r := g.r
 	t := g.pickTenant()
 	if !g.p.Isolate && r.P(1, 8) {
 		g.rejectedTx(t)
+		return
+	}
+	if !g.p.Isolate && r.P(1, 14) {
+		g.chainsChange()
+		return
+	}
+	if !g.p.Isolate && r.P(1, 14) {
+		g.emptyIdScript(t)
 		return
 	}
 	switch r.N(6) {
@@ -724,7 +778,11 @@ func (g *G) oracleOp() {
 		if r.P(1, 3) {
 			nf = feeder // back to the validator's own account
 		}
-		g.emit("consent %s %s", vt, nf)
+		cv := vt
+		if r.P(1, 4) {
+			cv = strings.ToUpper(vt[:1]) + vt[1:] // the upper-case spelling of the operator address: stored under that spelling
+		}
+		g.emit("consent %s %s", cv, nf)
 	case 11:
 		if g.p.Powers && g.p.ParamGrid && r.P(1, 6) {
 			g.removedScript()
